@@ -309,6 +309,12 @@ def lift_float(x):
     if float(fr) == x:
         res = Poly.const(fr)
     if res is None:
+        # a float within a few ulp of a simple rational IS that rational in real-number semantics
+        # (e.g. sqrt(.5)*sqrt(.5) = 0.5000000000000001, 0.1+0.2)
+        r = _simple_rational(x, maxden=64, maxnum=4096, tol=1e-15)
+        if r is not None:
+            res = Poly.const(r)
+    if res is None:
         r = _simple_rational(x / math.pi, maxden=64)
         if r is not None and abs(r) <= 256:
             res = Poly({(0, ((CTX.pi, 1),)): r})
